@@ -6,7 +6,8 @@ CONSTANTS NB = 3
  TxEp <- McTxEp
  Pend <- McPend
  PruneFirst = FALSE
-INVARIANT PoolIsOffChain
+INVARIANT PoolUpper
+PROPERTY PoolLower
 INVARIANT HeadOK
 INVARIANT UnconfCached
 CHECK_DEADLOCK FALSE
